@@ -449,6 +449,29 @@ def gen_netscript(rng, nn, length, w):
             ops.append(("DS", a, rng.random() < 0.5))
             i += 1
             continue
+        if rng.random() < w.get("inflight", 0.0):
+            # a long-polling call: a's request stays inside b's handler far longer than the script lasts, so whatever
+            # ends the connection later finds work in flight on it (no effect on the connection views: NetModel no-op)
+            a, b = pair()
+            if rng.random() < 0.3:
+                ops.append(("W", a, b))
+                i += 1
+                continue
+            # mostly as a block: connect, start the call (either direction), end the connection one way or another
+            ops.append(("D", a, b))
+            ops.append(("W", a, b) if rng.random() < 0.5 else ("W", b, a))
+            k = rng.random()
+            if k < 0.4:
+                ops.append(("X", a, b) if rng.random() < 0.5 else ("X", b, a))
+            elif k < 0.6:
+                ops.append(("R", rng.choice([a, b])))
+            elif k < 0.8:
+                ops += [("P", a, b), ("Q",), ("H", a, b)]
+            else:
+                ops.append(("D", b, a))
+            ops.append(("Q",))
+            i += 3
+            continue
         if r < w.get("fault", 0.0) + 0.5:
             a, b = pair()
             if rng.random() < w.get("pin", 0.1):
@@ -490,6 +513,7 @@ def net_scenario(rng, nodes, ops, default_idle=False):
     cmds = ["seed=%d delay=%d" % (rng.randrange(1 << 30), rng.choice([500, 1000, 3000]))]
     cmds += [nodecmd(i) for i in range(1, nn + 1)]
     marks = []   # (op index, position of first 'peers' result, rpc positions)
+    polling = {}  # caller -> long-polling calls it has pending
     for oi, op in enumerate(ops):
         k = op[0]
         pos_res = None
@@ -501,9 +525,14 @@ def net_scenario(rng, nodes, ops, default_idle=False):
             pos_res = len(cmds)
             cmds.append("connect %d %d%s" % (op[1], op[1], " pin=%d" % op[1] if op[2] else ""))
             cmds.append("sleep 1500")      # both ends of a connection to oneself meet in one active-peer set and one of them closes it
+        elif k == "W":
+            cmds += ["bg w%d rpc %d %d id=w%d size=10 sleep-ms=3000000" % (oi, op[1], op[2], oi), "sleep 300"]
+            polling.setdefault(op[1], []).append(oi)
         elif k == "X":
             cmds += ["disconnect %d %d" % (op[1], op[2]), "sleep 300"]
         elif k == "R":
+            # a pending call borrows its network's handle: the caller abandons its calls before dropping the last handle
+            cmds += ["cancel w%d" % j for j in polling.pop(op[1], [])]
             cmds += ["drop %d" % op[1], "sleep 200", nodecmd(op[1], True), "sleep 300"]
         elif k == "K":
             if op[3] == "none":
@@ -527,6 +556,7 @@ def net_scenario(rng, nodes, ops, default_idle=False):
                         rpcs.append((a, b, len(cmds)))
                         cmds.append("rpc %d %d id=q%d size=50" % (a, b, oi))
         marks.append((oi, pos_res, ppos, rpcs))
+    cmds += ["cancel w%d" % j for js in polling.values() for j in js]
     epos = len(cmds)
     cmds += ["events %d" % i for i in range(1, nn + 1)]
     cmds += ["ranks", "trace active"]
@@ -1042,13 +1072,18 @@ def c02(chk):
                 args += " sleep-ms=%d" % rng.choice([1, 5, 20, 100, 400])
             if rng.random() < 0.2:
                 args += " hdr-size=%d" % rng.choice([1, 100, 5000])
+            st = 200
+            if rng.random() < 0.3:
+                # the handler answers with a status of its own choosing (with its usual, usually non-empty, body)
+                st = rng.choice([400, 404, 408, 429, 500, 505, 520, 200])
+                args += " status=%d" % st
             if rng.random() < 0.3:
                 # arbitrary header names chosen by the caller, echoed by the handler: mixed case, names equal up to case,
                 # non-ASCII, empty values (header maps travel verbatim)
                 names = rng.sample(["X-Trace", "x-trace", "X-TRACE", "x-\u00e9", "X-a", "x-A", "x-" + "k" * rng.randrange(1, 40)], rng.randrange(1, 4))
                 args += " xh=" + ",".join("%s:%s" % (n.encode().hex(), ("v%d" % q).encode().hex()) for q, n in enumerate(names))
             cmds.append("bg %s rpc %d %d %s" % (rid, a, b, args))
-            rpcs.append((rid, a, b, size, rs))
+            rpcs.append((rid, a, b, size, rs, st))
         for rid, *_ in rpcs:
             cmds.append("join %s 300000" % rid)
         cmds += ["log 0", "log 1", "peers 0", "trace"]
@@ -1065,7 +1100,7 @@ def c02(chk):
             chk.count("rpc-trace-not-modelled: different frame limits at the two ends")
             continue
         limit = lims[0]
-        byid = dict((rid, (a, b, size, rs)) for rid, a, b, size, rs in rpcs)
+        byid = dict((rid, (a, b, size, rs)) for rid, a, b, size, rs, st in rpcs)
         def patterns(rid, kind, byid=byid):
             a, b, size, rs = byid.get(rid, (0, 0, 0, None))
             if kind == "resp" and rs is not None:
@@ -1090,7 +1125,7 @@ def c02(chk):
         cmds = [c.strip() for c in sc[len("simnet "):].split(" ; ")][1:]
         r = {c: x for c, x in zip(cmds, res)}
         sent_to = {0: {}, 1: {}}
-        for rid, a, b, size, rs in rpcs:
+        for rid, a, b, size, rs, st in rpcs:
             out = r["join %s 300000" % rid]
             seed = len(rid) + b
             want_sent = pat_digest(size, seed)
@@ -1098,7 +1133,8 @@ def c02(chk):
             if out.startswith("ok"):
                 f = fields(out)
                 want_body = pat_digest(rs, len(rid)) if rs is not None else want_sent
-                if f["st"] != "200" or f["id"] != rid or f["srv"] != str(b) or f["from"] != str(b) or f["seen"] != str(a) or f["body"] != want_body or f["sent"] != want_sent:
+                chk.count("response-status:%d" % st)
+                if f["st"] != str(st) or f["id"] != rid or f["srv"] != str(b) or f["from"] != str(b) or f["seen"] != str(a) or f["body"] != want_body or f["sent"] != want_sent:
                     chk.monitor_fail("RPC %s (%d->%d) returned a response that is not its own: %s (expected body %s)" % (rid, a, b, out[:200], want_body), dict(case=sc))
             elif out == "HANG":
                 chk.monitor_fail("RPC %s neither returned nor failed" % rid, dict(case=sc))
@@ -1243,10 +1279,24 @@ def c06(chk):
     n = 16 if quick else 200
     valid = req_bytes(b"/echo", [(b"id", b"adv")], b"hello")
     answers = []
+    # route tables an application may give its Router (the victim serves one of them in most scenarios; "/echo" is
+    # always present for the honest calls); hostile route strings are derived from the table in use
+    TABLES = [None, ["/echo"], ["/echo", "/peers", "/peer/info"], ["/echo", "/ab", "/a/x"], ["/echo", "/EchoAdmin/*rest", "/Echo/ping"],
+              ["/echo", "/e", "/ec/ho/", "/echo2/"], ["/", "/echo"], ["/echo", "/users/:id", "/users/:id/posts", "/files/*path"],
+              ["/echo", "/:svc/info"], ["/echo", "/a/b/c/d", "/a/b/cd", "/a/bc/d"]]
+    def derived(rng, table):
+        r = rng.choice(table or ["/echo"])
+        k = rng.randrange(0, len(r) + 1)
+        c = rng.choice([r[:k], r[:k] + "/", r + "/", r.rstrip("/"), r + "//", "/" + r, r[:k] + "//" + r[k:], r.replace(":id", "7").replace("*path", "x/y").replace(":svc", "s"),
+                        r.replace(":id", "").replace("*path", "").replace(":svc", ""), r[:k] + "/" + r[k:], "", "/", "//", r.upper()])
+        return c.encode()
+    n += len(TABLES) - 1
     for i in range(n):
         rng = chk.rng
+        table = TABLES[(i - 1) % len(TABLES)] if i >= 2 else None
+        rt = " routes=" + ",".join(x.encode().hex() for x in table) if table else ""
         cmds = ["seed=%d delay=%d" % (rng.randrange(1 << 30), rng.choice([500, 5000])),
-                "node 1 key=1 name=n10 idle=60000 keepalive=5000 maxbidi=32", "node 2 key=2 name=n10 idle=60000 keepalive=5000",
+                "node 1 key=1 name=n10 idle=60000 keepalive=5000 maxbidi=32" + rt, "node 2 key=2 name=n10 idle=60000 keepalive=5000",
                 "adv 8 k=7 names=n10", "advdial 8 1 sni=n10", "connect 2 1", "sleep 300",
                 "bg slow rpc 2 1 id=slow size=1000 sleep-ms=2000"]
         ops = []
@@ -1269,6 +1319,16 @@ def c06(chk):
                         ops.append("advserve 8 %s:finish" % resp_bytes(200, [(b"status-message", v), (b"content-type", v), (b"x-note", v)], b"answer").hex())
                         ops.append("rpc 1 8 id=w%d size=0" % n)
                         n += 1
+        if 2 <= i < 1 + len(TABLES):
+            # systematic part, once per route table: every prefix of every served route, with and without a further
+            # slash, and the usual near misses of each route, as byte-wise well-formed requests
+            cand = []
+            for r in table:
+                for k in range(len(r) + 1):
+                    cand += [r[:k], r[:k] + "/"]
+                cand += [r + "//", "/" + r, r.upper(), r.replace(":id", "7").replace("*path", "x/y").replace(":svc", "s"), r.replace(":id", "").replace("*path", "").replace(":svc", "")]
+            for c in sorted(set(cand)):
+                ops.append("advop 8 1 bi:%s:finish" % req_bytes(c.encode(), [(b"id", b"adv")], b"hello").hex())
         for j in range(rng.randrange(4, 30)):
             r = rng.random()
             if r < 0.2:
@@ -1295,7 +1355,10 @@ def c06(chk):
                 for _ in range(rng.randrange(1, 4)):
                     hs.append((rng.choice([b"timeout", b"timeout", b"status-message", b"content-type", b"x-" + nasty()[:20]]), nasty()))
                 hs = list(dict(hs).items())
-                data = req_bytes(rng.choice([b"/echo", b"/echo", b"/none", nasty()[:40]]), hs, b"hello")
+                data = req_bytes(rng.choice([b"/echo", b"/echo", b"/none", nasty()[:40], derived(rng, table)]), hs, b"hello")
+            elif r < 0.96 or table:
+                # byte-wise well-formed requests whose route is an odd relative of the routes the victim serves
+                data = req_bytes(derived(rng, table), [(b"id", b"adv")], b"hello")
             else:
                 data = valid
             kind = rng.random()
@@ -1363,6 +1426,8 @@ def c06(chk):
         for c, x in zip(cmds, res):
             if c.startswith("advop"):
                 chk.count("hostile:" + c.split()[3].split(":")[0] + (":" + c.split()[3].split(":")[2] if c.split()[3].startswith("bi") else ""))
+                if "routes=" in cmds[0]:
+                    chk.count("victim-serves-a-router")
                 if c.endswith("close"):
                     closed_conn = True
                 if c == "advop 8 1 bi:%s:finish" % valid.hex() and not closed_conn and not x.startswith("answered"):
@@ -1604,6 +1669,8 @@ def mgr_trace_case(trace, node):
     in_cleanup = False
     inst = None
     pending_registered = None
+    waiting = {"c": 0, "s": 0}     # API calls that have not got their request into the mailbox yet
+    finished = False
     for i, f in enumerate(lines):
         cat = f[1]
         kv = dict(x.split("=", 1) for x in f[2:] if "=" in x)
@@ -1612,10 +1679,16 @@ def mgr_trace_case(trace, node):
         if cat == "api" and f[2] == own:
             k = "c" if kv["kind"] == "connect" else "s"
             if f[3] == "submit":
-                nxt = lines[i + 1] if i + 1 < len(lines) else []
-                sent = len(nxt) > 3 and nxt[1] == "api" and nxt[2] == own and nxt[3] == "submitted" and nxt[4] == f[4]
-                toks.append("S:%s:%d" % (k, sent))
+                # the model's Submit is the moment the request enters the mailbox ("submitted"; a caller may wait for
+                # room in a bounded mailbox first) or the moment the call finds the receiver gone
                 facts["submitted"] += 1
+                if finished:
+                    toks.append("S:%s:0" % k)
+                else:
+                    waiting[k] += 1
+            elif f[3] == "submitted":
+                toks.append("S:%s:1" % k)
+                waiting[k] -= 1
             elif f[3] == "answered":
                 facts["answered_ok" if kv["ok"] == "true" else "answered_err"] += 1
         elif cat == "mgr" and f[2] == own:
@@ -1651,6 +1724,11 @@ def mgr_trace_case(trace, node):
                 in_cleanup = False
             elif ev == "finish":
                 toks.append("F")
+                # the receiver is gone: calls still waiting for room in the mailbox fail now
+                finished = True
+                for k2 in ("c", "s"):
+                    toks += ["S:%s:0" % k2] * waiting[k2]
+                    waiting[k2] = 0
         elif cat == "handler" and kv.get("id") in hid:
             h = hid[kv["id"]]
             toks.append({"req-start": "q+:%d", "req-end": "q-:%d", "drained": "A:%d"}[f[3]] % h)
@@ -1686,8 +1764,12 @@ def c08(chk):
     for i in range(n):
         rng = chk.rng
         idle_wait = rng.choice([500, 2000])
+        mode = rng.choice(["explicit", "explicit", "drop", "double", "burst"])
+        # burst: the shutdown call is issued right behind a burst of other API calls, more of them than the manager's
+        # mailbox holds (a small configured mailbox, or the default one and a large burst)
+        mbox, burst = rng.choice([(1, 1), (1, 3), (2, 2), (2, 5), (None, 128), (None, 200), (None, 4), (16, 40)])
         cmds = ["seed=%d delay=%d" % (rng.randrange(1 << 30), rng.choice([500, 5000])),
-                "node 0 idle=10000 keepalive=3000 shutdown_idle=%d ctimeout=3000" % idle_wait,
+                "node 0 idle=10000 keepalive=3000 shutdown_idle=%d ctimeout=3000%s" % (idle_wait, " mbox=%d" % mbox if mode == "burst" and mbox else ""),
                 "node 1 idle=10000 keepalive=3000", "node 2 idle=10000 keepalive=3000",
                 "connect 0 1", "connect 2 0", "sleep 300", "sub 0"]
         jobs = []
@@ -1707,9 +1789,12 @@ def c08(chk):
             cmds += ["adv 8 k=7 names=net", "bg adv connect 0 8"]   # placeholder: an extra peer connecting
             jobs.append(("adv", "connect 0 8"))
         cmds.append("sleep %d" % rng.choice([0, 1, 5, 50, 500]))
-        mode = rng.choice(["explicit", "explicit", "drop", "double"])
         if mode == "explicit":
             cmds.append("shutdown 0")
+        elif mode == "burst":
+            for q in range(burst):
+                bg("connect 0 %d%s" % ((1, "") if q % 3 == 2 else (9, " port=9")))
+            cmds += ["bg s1 shutdown 0", "join s1 120000"]
         elif mode == "double":
             cmds += ["bg s1 shutdown 0", "bg s2 shutdown 0", "bg c1 connect 0 1", "join s1 120000", "join s2 120000", "join c1 120000"]
         else:
@@ -1778,6 +1863,13 @@ def c08(chk):
                 f = fields(x)
                 if f["closed"] != "1" or f["peers"] != "0":
                     chk.monitor_fail("a shutdown call returned Ok while the network still reports closed=%s with %s peer(s)" % (f["closed"], f["peers"]), dict(case=sc))
+        if mode == "burst":
+            chk.count("burst-before-shutdown:%d-calls-mailbox-%s" % (len([j for j in jobs if j[1].startswith("connect 0")]), "default" if "mbox=" not in cmds[0] else cmds[0].split("mbox=")[1]))
+            x = r["join s1 120000"][0]
+            if not x.startswith("ok"):
+                chk.monitor_fail("the only shutdown call, issued behind a burst of other API calls, did not succeed: " + x, dict(case=sc))
+            elif int(fields(x)["t"]) > bound_us:
+                chk.monitor_fail("shutdown took %s us, idle-wait bound is %d ms" % (fields(x)["t"], idle_wait), dict(case=sc))
         if mode == "double":
             a, b = r["join s1 120000"][0], r["join s2 120000"][0]
             if "HANG" in (a, b, r["join c1 120000"][0]):
